@@ -93,7 +93,7 @@ var props = map[string]propCfg{
 	"C09": {QuickRuns: 20000, Chunk: 500, ThoroughS: 900, Level: "exploration", StallS: 60},
 	"C11": {QuickRuns: 60000, Chunk: 1500, ThoroughS: 900, Level: "exploration", StallS: 60},
 	"C12": {QuickRuns: 6000, Chunk: 200, ThoroughS: 900, Level: "exploration", StallS: 120, Race: true},
-	"C13": {QuickRuns: 640, Chunk: 20, ThoroughS: 900, Level: "fault_enumeration", StallS: 30},
+	"C13": {QuickRuns: 640, Chunk: 20, ThoroughS: 900, Level: "fault_enumeration", StallS: 60},
 	"C14": {QuickRuns: 24000, Chunk: 500, ThoroughS: 600, Level: "other", StallS: 60},
 	"C16": {QuickRuns: 6000, Chunk: 250, ThoroughS: 900, Level: "exploration", StallS: 60, Gomaxprocs: []int{1, 4, 16}, Digests: true},
 	"C18": {QuickRuns: 6000, Chunk: 100, ThoroughS: 900, Level: "fault_enumeration", StallS: 120, NeedsBclBin: true},
